@@ -69,6 +69,9 @@ def run_case(case):
             p.subscribe(lambda d, o=o: recv[o].append(d["a"]))
             if mode == "ovprobe":
                 p.override(lambda d: d["a"])
+                # a stage that publishes when the probe completes and asks for an override then: nothing is being assigned at
+                # that moment, the request must not wait for the next binding of a generator that outlives the block
+                p.count().override(-999)
             ovl[o] = p
     roots = {id(sels[o]): "R" + o[1] for o in TEXT}
     gens = {}
